@@ -13,6 +13,7 @@ import Frrs.Commit
 import Frrs.Filter
 import Frrs.Oracle
 import Frrs.Sanity
+import Frrs.Finalize
 import Frrs.Analyze
 import Frrs.Detect
 namespace Frrs.Ops
@@ -247,6 +248,13 @@ def dispatch (op : String) (args : List String) : Option String :=
       pure (if src.failed.isSome then "src-failed" else if !renameOk o src then "rename-not-ok"
             else if refRenameCollides x then "ref-collision" else "ok")
   | "compat", [n, r] => do pure (encBool (compat (← decBytes n) (← decBytes r)))
+  -- finalize.rs: where HEAD goes. head = "none" | hex; refs/upd = lists; br = "none" | old:new
+  | "headtarget", [head, refsAfter, br, upd] => do
+      let h ← (if head == "none" then some none else (decBytes head).map some)
+      let b ← (if br == "none" then some none else match br.splitOn ":" with
+        | [a, c] => (do pure (some (← decBytes a, ← decBytes c)))
+        | _ => none)
+      pure (encOptBytes (headTarget h (← decList refsAfter) b (← decList upd)))
   | "striplookup", [content, queries] => do
       match parseStripIds (← decBytes content) with
       | none => pure "err"
